@@ -25,6 +25,14 @@ RC_ESCAPES = ("::get_mut", "::make_mut", "::get_mut_unchecked", "::as_ptr", "::i
               "::into_inner", "::unwrap_or_clone")
 
 
+def part_of(t, part, rule_term):
+    """t is the head / body of the fetched clause: `rule.get_head()` / `get_body()` (a copy) or the field itself."""
+    t = strip(t)
+    if t[0] == "call" and t[1].endswith("get_" + part) and t[2] and strip(t[2][0]) == strip(rule_term):
+        return True
+    return t == ("field", strip(rule_term), part)
+
+
 def run(ctx):
     prog = ctx.prog
     S = Solver(prog, ctx)
@@ -111,7 +119,7 @@ def run(ctx):
                     ok["unify-set"] = False
                     why["unify-set"] = "head unification starts from %s, not the node's own set" % show(s)
                 hh = strip(h)
-                if not (hh[0] == "call" and hh[1].endswith("get_head") and cur_rule is not None and strip(hh[2][0]) == cur_rule["result"]):
+                if not (cur_rule is not None and part_of(hh, "head", cur_rule["result"])):
                     ok["unify-goal"] = False
                     why["unify-goal"] = "the term unified is %s, not the head of the clause just fetched" % show(h)
                 gg = strip(g)
@@ -128,7 +136,7 @@ def run(ctx):
                     ok["body-kb"] = False
                     why["body-kb"] = "the clause body searches %s, not the node's knowledge base" % show(kb)
                 gg = strip(g)
-                if not (gg[0] == "call" and gg[1].endswith("get_body") and cur_rule is not None and strip(gg[2][0]) == cur_rule["result"]):
+                if not (cur_rule is not None and part_of(gg, "body", cur_rule["result"])):
                     ok["body-goal"] = False
                     why["body-goal"] = "the child node's goal is %s, not the body of the clause just fetched" % show(g)
     ctx.floor("R2", n_u and n_m, 1, "head unifications / body nodes in the clause loop")
@@ -436,8 +444,9 @@ def run(ctx):
                 q = strip(pl)[1]
                 if not q[1].endswith("Unifiable::unify"):
                     ok, why = False, "a rebuilt answer %s" % show(r)
-                nil = any(e["k"] == "branch" and e["value"] is True and e["cond"][0] == "call" and e["cond"][1].endswith("::eq")
-                          and any(isinstance(a, tuple) and a[0] == "agg" and a[2] == "Nil" for a in e["cond"][2]) for e in p.events)
+                nil = any(e["k"] == "branch" and ((e["value"] is True and e["cond"][0] == "call" and e["cond"][1].endswith("::eq")
+                                                   and any(isinstance(a, tuple) and a[0] == "agg" and a[2] == "Nil" for a in e["cond"][2]))
+                                                  or (e["cond"][0] == "variant" and e["value"] == "Nil")) for e in p.events)
                 if not nil:
                     ok, why = False, "the head-unification result is returned although the clause has a body"
             if nm == "and" and pl is not None:
